@@ -109,6 +109,10 @@ def instances(tier, seed):
                 add(spec=fam.with_horizon(model(dae), h), cfg=Cfg(method, N=N, M=M, intg=intg or 'rk', grid=g, degree=degree, scheme=scheme),
                     exprs_seed=seed * 1000 + 7 * n + 1, soft=True, family='random')
             n += 1
+    # DAE under collocation points that do NOT include the end of the step (legendre): the algebraic value at the final node is the
+    # last step's polynomial extrapolated to the end of the step
+    add(spec=fam.with_horizon(model(True), Hsym[0]), cfg=Cfg('DC', N=2, M=2, grid=fam.G_UNI, degree=2, scheme='legendre'))
+    add(spec=fam.with_horizon(model(True), Hsym[1 % len(Hsym)]), cfg=Cfg('DC', N=2, M=1, grid=fam.G_GEO_LOC, degree=3, scheme='legendre'))
     # one-point grids: N=1 ('control-', '-control': one point) and N=2 ('-control-': one point); the numeric read-back keeps its time index
     for mi, (method, intg, N_) in enumerate((('MS', 'rk', 1), ('DC', None, 1), ('SS', 'rk', 2), ('DC', None, 2))):
         add(spec=fam.with_horizon(model(False), H[mi % len(H)] if method != 'DC' else Hsym[mi % len(Hsym)]),
